@@ -64,8 +64,12 @@ META = {
         "get_inventory_matches implementations return the filter results without re-ordering; an abstract execution of "
         "render_link_inventory per number of path parts (1, 2, 3; IndexError under suppress/except, tuple assignments evaluated as a "
         "whole, length guards, None padding) shows every given part bound to its filter at the lookup; the inventory stored for a "
-        "configuration key is fetched with that entry's base URL and is not memoised under a key lacking it; on the CFG, evaluated "
-        "under the abstract match count (0, 1, 2, 3+; star-unpacking of the match list understood; an emission extracted into a helper "
+        "configuration key is fetched with that entry's base URL and is not memoised under a key lacking it (several stores and "
+        "memo fills are judged one by one); inside myst_parser.inventory every function that receives `base_url` hands it on "
+        "unchanged to each package callee that takes one and puts it into the InventoryType it builds (fetch_inventory -> load -> "
+        "_load_v1/_load_v2); on the CFG, evaluated "
+        "under the abstract match count (0, 1, 2, 3+; star-unpacking of the match list understood; the size of a collection derived from the matches - set / comprehension "
+        "with or without filter - is an interval, so a test such as len({... for m in matches}) > 1 is followed on both edges; an emission extracted into a helper "
         "that emits exactly once is followed one level), the link path emits IREF_MISSING exactly once and no reference for 0 matches, "
         "nothing but one reference for 1, IREF_AMBIGUOUS exactly once plus one reference for >1; the handler of a try around the href "
         "parse is its own outcome class (exactly one warning, no lookup, no reference); the first match is used; refuri is "
@@ -1646,10 +1650,41 @@ def _ev_len(t: ast.expr, lens: dict[str, int], n: int):
     def size(name: str) -> int:
         return max(0, n - lens[name])
 
-    def len_of(e):
-        if isinstance(e, ast.Call) and isinstance(e.func, ast.Name) and e.func.id == "len" and len(e.args) == 1 and isinstance(e.args[0], ast.Name) and e.args[0].id in lens:
-            return size(e.args[0].id)
+    def count_of(x):
+        """(lo, hi): how many items the collection expression has, as far as n decides it; None = not understood."""
+        if isinstance(x, ast.Name) and x.id in lens:
+            return size(x.id), size(x.id)
+        if isinstance(x, ast.Call) and isinstance(x.func, ast.Name) and len(x.args) == 1 and not x.keywords:
+            inner = count_of(x.args[0])
+            if inner is None:
+                return None
+            if x.func.id in ("list", "tuple", "sorted", "reversed"):
+                return inner
+            if x.func.id in ("set", "frozenset"):  # duplicates collapse: at least one item if there is any
+                return min(1, inner[0]), inner[1]
+        if isinstance(x, (ast.ListComp, ast.GeneratorExp, ast.SetComp, ast.DictComp)) and len(x.generators) == 1:
+            inner = count_of(x.generators[0].iter)
+            if inner is None:
+                return None
+            lo, hi = inner
+            if isinstance(x, (ast.SetComp, ast.DictComp)):
+                lo = min(1, lo)
+            if x.generators[0].ifs:
+                lo = 0
+            return lo, hi
+        if isinstance(x, ast.Subscript) and isinstance(x.slice, ast.Slice) and x.slice.lower is None and x.slice.step is None and isinstance(x.slice.upper, ast.Constant) and type(x.slice.upper.value) is int and x.slice.upper.value >= 0:
+            inner = count_of(x.value)
+            return None if inner is None else (min(inner[0], x.slice.upper.value), min(inner[1], x.slice.upper.value))
         return None
+
+    def len_of(e):
+        if isinstance(e, ast.Call) and isinstance(e.func, ast.Name) and e.func.id == "len" and len(e.args) == 1:
+            return count_of(e.args[0])
+        return None
+
+    def decide(values):
+        vs = set(values)
+        return vs.pop() if len(vs) == 1 else None
 
     if isinstance(t, ast.Name) and t.id in lens:
         return size(t.id) > 0
@@ -1666,19 +1701,33 @@ def _ev_len(t: ast.expr, lens: dict[str, int], n: int):
             return True
         return False if all(v is False for v in vals) else None
     if len_of(t) is not None:
-        return len_of(t) > 0
+        lo, hi = len_of(t)
+        return decide(v > 0 for v in range(lo, hi + 1))
+    if count_of(t) is not None and not isinstance(t, ast.Name):
+        lo, hi = count_of(t)  # truthiness of a derived collection
+        return decide(v > 0 for v in range(lo, hi + 1))
     if isinstance(t, ast.Compare) and len(t.ops) == 1:
         l, r, op = t.left, t.comparators[0], t.ops[0]
-        a = len_of(l) if len_of(l) is not None else (l.value if isinstance(l, ast.Constant) and type(l.value) is int else None)
-        b = len_of(r) if len_of(r) is not None else (r.value if isinstance(r, ast.Constant) and type(r.value) is int else None)
+
+        def operand(e):
+            if len_of(e) is not None:
+                return len_of(e)
+            if isinstance(e, ast.Constant) and type(e.value) is int:
+                return e.value, e.value
+            return None
+
+        a, b = operand(l), operand(r)
         if len_of(l) is not None or len_of(r) is not None:
             if a is None or b is None:
                 other = r if len_of(l) is not None else l
                 # `len(matches) > show_num`: depends on a second value -> unknown, both edges are followed
                 return None if not _mentions(other, lens) else _unsupported_len(t)
-            for cls, fn in ((ast.Gt, a > b), (ast.GtE, a >= b), (ast.Lt, a < b), (ast.LtE, a <= b), (ast.Eq, a == b), (ast.NotEq, a != b)):
+            if len_of(l) is not None and len_of(r) is not None and (a[0] != a[1] or b[0] != b[1]):
+                return None  # two dependent, inexactly known sizes
+            for cls, fn in ((ast.Gt, lambda x, y: x > y), (ast.GtE, lambda x, y: x >= y), (ast.Lt, lambda x, y: x < y), (ast.LtE, lambda x, y: x <= y), (ast.Eq, lambda x, y: x == y), (ast.NotEq, lambda x, y: x != y)):
                 if isinstance(op, cls):
-                    return fn
+                    # e.g. len({... for m in matches}) > 1 with 2 matches: 1 or 2 distinct values -> not decided, both edges are followed
+                    return decide(fn(x, y) for x in range(a[0], a[1] + 1) for y in range(b[0], b[1] + 1))
     if _mentions_whole(t, lens):
         _unsupported_len(t)
     return None  # e.g. `matches[0].text`: a property of an entry, not of the number of entries
@@ -2077,15 +2126,20 @@ def _base_url_check(corpus: Corpus, rep: Report) -> None:
         raise Unsupported(f"{fi.qualname}: loop target `{short(t, 40)}` is not `key, (uri, path)`")
     key, uri = t.elts[0].id, t.elts[1].elts[0].id
     stores = [n for n in fi.local_nodes() if isinstance(n, ast.Assign) and len(n.targets) == 1 and isinstance(n.targets[0], ast.Subscript) and (dotted(n.targets[0].value) or "") == "self._inventories" and loops[0] in ancestors(n)]
-    if len(stores) != 1:
-        raise Unsupported(f"{fi.qualname}: {len(stores)} stores into self._inventories inside the loop")
-    st = stores[0]
+    if not stores:
+        raise Unsupported(f"{fi.qualname}: no store into self._inventories inside the loop")
     k = f"{fi.fq}|the inventory stored for a configuration key carries that entry's base URL"
-    if not (isinstance(st.targets[0].slice, ast.Name) and st.targets[0].slice.id == key):
-        raise Unsupported(f"{fi.qualname}: `{short(st, 50)}` is not keyed by the configuration key")
 
     def is_fetch(e):
         return isinstance(e, ast.Call) and (dotted(e.func) or "").rsplit(".", 1)[-1] == "fetch_inventory"
+
+    def resolved(v: ast.expr) -> ast.expr:
+        if isinstance(v, ast.Name):
+            d = _defs_of(fi, v.id)
+            if len(d) != 1:
+                raise Unsupported(f"{fi.qualname}: {v.id} has {len(d)} definitions")
+            return d[0]
+        return v
 
     def fetch_problem(c: ast.Call) -> str | None:
         b = kwarg(c, "base_url")
@@ -2095,36 +2149,87 @@ def _base_url_check(corpus: Corpus, rep: Report) -> None:
             return None
         return f"`{short(c, 60)}` passes base_url=`{short(b, 30)}`, not the entry's base URL `{uri}`"
 
-    v = st.value
-    if isinstance(v, ast.Name):
-        d = _defs_of(fi, v.id)
-        if len(d) != 1:
-            raise Unsupported(f"{fi.qualname}: {v.id} has {len(d)} definitions")
-        v = d[0]
-    problem = None
-    if is_fetch(v):
-        problem = fetch_problem(v)
+    problems: list[tuple[ast.AST, str]] = []
+    for st in stores:
+        if not (isinstance(st.targets[0].slice, ast.Name) and st.targets[0].slice.id == key):
+            raise Unsupported(f"{fi.qualname}: `{short(st, 50)}` is not keyed by the configuration key")
+        v = resolved(st.value)
+        problem = None
+        if is_fetch(v):
+            problem = fetch_problem(v)
+        else:
+            memo_key = None
+            memo_calls: list[ast.Call] = []
+            if isinstance(v, ast.Subscript):  # C[k], filled elsewhere by C[k] = fetch(...) (or = None for a failed load)
+                cont = unparse(v.value)
+                for n in fi.local_nodes():
+                    if isinstance(n, ast.Assign) and len(n.targets) == 1 and isinstance(n.targets[0], ast.Subscript) and unparse(n.targets[0].value) == cont:
+                        fv = resolved(n.value)
+                        if isinstance(fv, ast.Constant) and fv.value is None:
+                            continue
+                        if not is_fetch(fv) or unparse(n.targets[0].slice) != unparse(v.slice):
+                            raise Unsupported(f"{fi.qualname}: memo `{cont}` is filled by `{short(n, 50)}`, which is not the fetch under the key that is looked up")
+                        memo_calls.append(fv)
+                memo_key = v.slice
+            elif isinstance(v, ast.Call) and isinstance(v.func, ast.Attribute) and v.func.attr == "setdefault" and len(v.args) == 2 and is_fetch(v.args[1]):
+                memo_key, memo_calls = v.args[0], [v.args[1]]
+            if not memo_calls:
+                raise Unsupported(f"{fi.qualname}: the stored inventory comes from `{short(v, 50)}`, not from fetch_inventory")
+            for mc in memo_calls:
+                problem = problem or fetch_problem(mc)
+            if problem is None:
+                comps = memo_key.elts if isinstance(memo_key, ast.Tuple) else [memo_key]
+                if not any(isinstance(c, ast.Name) and c.id == uri for c in comps):
+                    problem = (f"the loaded inventory is memoised under `{short(memo_key, 40)}`, which does not contain the base URL `{uri}` that was baked into it: "
+                               "a second configuration entry (or a later parse) reading the same location with another base URL gets the first entry's base_url, and refuri is joined to the wrong base")
+        if problem is not None:
+            problems.append((st, problem))
+    if not problems:
+        rep.ok("C19.R4", k, fi.module.site(stores[0]), f"{len(stores)} store(s)")
     else:
-        memo_key = memo_call = None
-        if isinstance(v, ast.Subscript):  # C[k], filled elsewhere by C[k] = fetch(...)
-            cont = unparse(v.value)
-            fills = [n for n in fi.local_nodes() if isinstance(n, ast.Assign) and len(n.targets) == 1 and isinstance(n.targets[0], ast.Subscript) and unparse(n.targets[0].value) == cont and is_fetch(n.value)]
-            if len(fills) == 1 and unparse(fills[0].targets[0].slice) == unparse(v.slice):
-                memo_key, memo_call = v.slice, fills[0].value
-        elif isinstance(v, ast.Call) and isinstance(v.func, ast.Attribute) and v.func.attr == "setdefault" and len(v.args) == 2 and is_fetch(v.args[1]):
-            memo_key, memo_call = v.args[0], v.args[1]
-        if memo_call is None:
-            raise Unsupported(f"{fi.qualname}: the stored inventory comes from `{short(v, 50)}`, not from fetch_inventory")
-        problem = fetch_problem(memo_call)
-        if problem is None:
-            comps = memo_key.elts if isinstance(memo_key, ast.Tuple) else [memo_key]
-            if not any(isinstance(c, ast.Name) and c.id == uri for c in comps):
-                problem = (f"the loaded inventory is memoised under `{short(memo_key, 40)}`, which does not contain the base URL `{uri}` that was baked into it: "
-                           "a second configuration entry (or a later parse) reading the same location with another base URL gets the first entry's base_url, and refuri is joined to the wrong base")
-    if problem is None:
-        rep.ok("C19.R4", k, fi.module.site(st))
-    else:
-        rep.violation("C19.R4", k, fi.module.site(st), problem)
+        rep.violation("C19.R4", k, fi.module.site(problems[0][0]), problems[0][1])
+
+
+def _base_url_chain_check(corpus: Corpus, rep: Report) -> None:
+    """inventory module: a function that receives `base_url` hands it on unchanged to every package callee that takes one,
+    and the InventoryType literal it builds carries it (fetch_inventory -> load -> _load_v1/_load_v2 -> {'base_url': ...})."""
+    g = get_callgraph(corpus)
+    m = corpus.mod("inventory")
+    n_inst = 0
+    for f in m.functions.values():
+        if f.is_lambda or "base_url" not in f.params:
+            continue
+        if _defs_of(f, "base_url"):
+            raise Unsupported(f"{f.qualname}: base_url is re-assigned")
+        for c in f.local_nodes():
+            if not isinstance(c, ast.Call):
+                continue
+            tf = _callee(c, f, g)
+            if tf is None or tf.fq == f.fq or "base_url" not in tf.params:
+                continue
+            n_inst += 1
+            k = f"{f.fq}|base_url is handed on to {tf.name}"
+            a = _arg_map(c, tf).get("base_url")
+            if isinstance(a, ast.Name) and a.id == "base_url":
+                rep.ok("C19.R4", k, f.module.site(c))
+            elif a is None or isinstance(a, ast.Constant):
+                rep.violation("C19.R4", k, f.module.site(c), f"`{short(c, 60)}` does not hand the base URL on to {tf.name} ({'its default' if a is None else unparse(a)} is used): "
+                              "inventories loaded through this path get base_url=None and an inv: link is rendered with the bare relative location instead of base URL + location")
+            else:
+                raise Unsupported(f"{f.qualname}: `{short(c, 60)}` passes base_url=`{short(a, 30)}`")
+        for d in f.local_nodes():
+            if isinstance(d, ast.Dict) and any(isinstance(kk, ast.Constant) and kk.value == "base_url" for kk in d.keys) and any(isinstance(kk, ast.Constant) and kk.value == "objects" for kk in d.keys):
+                n_inst += 1
+                k = f"{f.fq}|InventoryType.base_url is the base_url parameter"
+                v = [vv for kk, vv in zip(d.keys, d.values) if isinstance(kk, ast.Constant) and kk.value == "base_url"][0]
+                if isinstance(v, ast.Name) and v.id == "base_url":
+                    rep.ok("C19.R4", k, f.module.site(d))
+                elif isinstance(v, ast.Constant):
+                    rep.violation("C19.R4", k, f.module.site(v), f"the inventory built by {f.name} gets base_url={unparse(v)} although the caller supplied one: inv: links into it lose their base URL")
+                else:
+                    raise Unsupported(f"{f.qualname}: InventoryType base_url = `{short(v, 30)}`")
+    if n_inst < 4:
+        raise Unsupported(f"base_url chain in myst_parser.inventory: only {n_inst} hand-over point(s) found (fetch_inventory -> load -> loaders expected)")
 
 
 def _order_breakers(e: ast.expr, fi: FunctionInfo, depth: int = 0) -> list[tuple[str, ast.AST]]:
@@ -2229,6 +2334,7 @@ def r4_link_paths(corpus: Corpus, rep: Report, tier: str):
     _href_parts_check(corpus, rep)
     # (a'') the inventory registered under a configuration key carries that entry's base URL
     _base_url_check(corpus, rep)
+    _base_url_chain_check(corpus, rep)
     # (b) match-count paths
     g = get_callgraph(corpus)
     for fq, has_missing, rk in LINK_FUNCS:
@@ -2431,7 +2537,7 @@ def r4_link_paths(corpus: Corpus, rep: Report, tier: str):
             rep.ok("C19.R4", k, where.module.site(uri), unparse(uri)[:100])
         else:
             rep.violation("C19.R4", k, where.module.site(uri), verdict)
-    rep.expect_min("C19.R4", 27, "13 pass-through keywords + 2 x (order, 3 count classes, first match, refuri)")
+    rep.expect_min("C19.R4", 32, "13 pass-through keywords + 2 x (order, 3 count classes, first match, refuri)")
 
 
 def _refuri_verdict(e: ast.expr, mv: str, rk: str, mod=None) -> str | None:
@@ -2652,6 +2758,22 @@ def mutants(corpus: Corpus):
         ind = " " * amb.col_offset
         add("c19-ambiguous-test-on-rest-off-by-one", "C19.R4", base, amb, f"_first, *others = matches\n{ind}" + seg.replace(tseg, "len(others) > 1", 1), "several matches")
         add("c19-ambiguous-test-on-rest-needs-none", "C19.R4", base, amb, f"_first, *others = matches\n{ind}" + seg.replace(tseg, "len(others) >= 0", 1), "exactly one match")
+    if amb is not None:
+        # class "the ambiguity test counts something derived from the matches (distinct values) instead of the matches"
+        add("c19-ambiguous-test-on-distinct-locations", "C19.R4", base, amb.test, "len({(m.base_url, m.loc) for m in matches}) > 1", "several matches")
+        add("c19-ambiguous-test-on-distinct-names", "C19.R4", base, amb.test, "len(set(m.name for m in matches)) > 1", "several matches")
+    # class "the base URL is lost on its way fetch_inventory -> load -> loader -> InventoryType"
+    ld = inv.func("load")
+    c1 = find_node(ld, lambda n: isinstance(n, ast.Call) and unparse(n.func) == "_load_v1" and len(n.args) == 2)
+    add("c19-load-v1-base-url-dropped", "C19.R4", inv, c1.args[1] if c1 is not None else None, "None", "handed on to _load_v1")
+    fe = inv.func("fetch_inventory")
+    c2 = find_node(fe, lambda n: isinstance(n, ast.Call) and unparse(n.func) == "load" and kwarg(n, "base_url") is not None)
+    add("c19-fetch-inventory-base-url-not-handed-on", "C19.R4", inv, c2, f"load({unparse(c2.args[0])})" if c2 is not None and c2.args else "", "handed on to load")
+    l2 = inv.func("_load_v2")
+    dv = find_node(l2, lambda n: isinstance(n, ast.Dict) and any(isinstance(k_, ast.Constant) and k_.value == "base_url" for k_ in n.keys))
+    if dv is not None:
+        bv = [v_ for k_, v_ in zip(dv.keys, dv.values) if isinstance(k_, ast.Constant) and k_.value == "base_url"][0]
+        add("c19-load-v2-inventory-base-url-none", "C19.R4", inv, bv, "None", "InventoryType.base_url")
     nm = find_node(rl, lambda n: isinstance(n, ast.If) and unparse(n.test) == "not matches")
     add("c19-missing-branch-falls-through", "C19.R4", base, nm.body[-1] if nm is not None and isinstance(nm.body[-1], ast.Return) else None, "pass", "no match")
     if amb is not None:
